@@ -152,7 +152,7 @@ Section Sound.
     intros a intry n s k Hle. unfold do_atom.
     destruct (if intry then fault E n else NoFault) eqn:Hf.
     - (* no fault *)
-      destruct a as [ | | f c | f c | pth d | t | | id ];
+      destruct a as [ | | f c | f c | pth d | t | t | | id ];
         try (unfold ai_atom, post; simpl; intros Hok; split;
              [ eapply exec_step_ok; eauto | apply ale_some, mstep_mono; auto ]).
       + (* ASet *)
@@ -171,7 +171,7 @@ Section Sound.
         rewrite (Hnf eq_refl) in Hf. discriminate. }
       unfold post; simpl. intros _. split; auto.
       unfold ai_atom. rewrite Hx.
-      destruct a as [ | | f c | f c | pth [|] | t | | id ]; simpl;
+      destruct a as [ | | f c | f c | pth [|] | t | t | | id ]; simpl;
         try (apply ale_some; auto).
       destruct (F Structured); simpl; apply ale_some; auto.
     - (* another exception strikes *)
@@ -180,7 +180,7 @@ Section Sound.
         rewrite (Hnf eq_refl) in Hf. discriminate. }
       unfold post; simpl. intros _. split; auto.
       unfold ai_atom. rewrite Hx.
-      destruct a as [ | | f c | f c | pth [|] | t | | id ]; simpl;
+      destruct a as [ | | f c | f c | pth [|] | t | t | | id ]; simpl;
         try (apply ale_some; auto).
       destruct (F Structured); simpl; apply ale_some; auto.
   Qed.
@@ -477,39 +477,68 @@ Qed.
 
 (* ---- (3) the final training_config.yaml ---------------------------------- *)
 
+(* nothing after the last save changes the configuration: no mutation AND no reload (round 4) *)
+Definition unchanged_after (p2 : list atom) : Prop :=
+  Forall (fun b => is_set b = false /\ is_reload b = false) p2.
+
+Lemma changes_config_false : forall p2, Forall (fun b => gen final_mon b = false) p2 -> unchanged_after p2.
+Proof.
+  intros p2 H. unfold unchanged_after. eapply Forall_impl; [|exact H]. intros a Ha. simpl in Ha.
+  unfold changes_config in Ha. apply orb_false_iff in Ha. exact Ha.
+Qed.
+
 Theorem final_after_mutation_lemma : forall p, final_config_contract p = true ->
   forall E, fl E RankZero = true -> no_faults E -> result E p = Ok ->
-  exists p1 a p2, trace E p = p1 ++ a :: p2 /\ is_write_to FTraining a = true /\
-                  Forall (fun b => is_set b = false) p2.
+  exists p1 a p2, trace E p = p1 ++ a :: p2 /\ is_write_to FTraining a = true /\ unchanged_after p2.
 Proof.
   intros p H E Hrz Hnf Hres. unfold final_config_contract in H.
   destruct (forall_envs_sound _ H E) as (F & Hag & HF).
   rewrite <- Hag, Hrz in HF. simpl in HF.
   pose proof (ends_clean_sound _ F E p Hag Hnf HF Hres) as Hfin.
   destruct (mfinal_false _ _ _ Hfin) as [[Hs _] | (p1 & k & p2 & Hpre & Hk & _ & Hp2)]; [discriminate|].
-  exists p1, k, p2. auto.
+  exists p1, k, p2. repeat split; auto. apply changes_config_false; exact Hp2.
 Qed.
 
 (* ---- (4) checkpoints ------------------------------------------------------ *)
 
+Lemma ckpt_req_agrees : forall E F, agrees E F -> ckpt_req F = ckpt_req (fl E).
+Proof. intros E F H. unfold ckpt_req, ckpt_saves. rewrite !H. reflexivity. Qed.
+
 Theorem no_ckpt_unless_requested_lemma : forall p, ckpt_contract p = true ->
-  forall E, fl E SaveCkpt = false ->
+  forall E, ckpt_req (fl E) = false ->
   Forall (fun a => is_write_to FCkpt a = false) (trace E p).
 Proof.
   intros p H E Hsc. unfold ckpt_contract in H. apply andb_prop in H as [H _].
   destruct (forall_envs_sound _ H E) as (F & Hag & HF).
-  rewrite <- Hag, Hsc in HF. simpl in HF.
+  rewrite (ckpt_req_agrees E F Hag), Hsc in HF. simpl in HF.
   destruct (run_sound _ F true E p Hag (fun X => False_ind _ (diff_true_false X)) HF) as [Hm _].
   exact (mok_const_true no_ckpt_mon (fun _ => eq_refl) (fun _ => eq_refl) _ Hm).
 Qed.
 
+(* the old hypothesis (save_ckpt off) is a special case *)
+Lemma no_ckpt_when_save_ckpt_off_lemma : forall p, ckpt_contract p = true ->
+  forall E, fl E SaveCkpt = false ->
+  Forall (fun a => is_write_to FCkpt a = false) (trace E p).
+Proof.
+  intros p H E Hsc. apply (no_ckpt_unless_requested_lemma p H E). unfold ckpt_req. rewrite Hsc. reflexivity.
+Qed.
+
+(* ... and so is "zero checkpoints asked for": save_top_k = 0 and save_last not set *)
+Lemma no_ckpt_when_zero_requested_lemma : forall p, ckpt_contract p = true ->
+  forall E, fl E SaveTopKZero = true -> fl E SaveLast = false ->
+  Forall (fun a => is_write_to FCkpt a = false) (trace E p).
+Proof.
+  intros p H E Hz Hl. apply (no_ckpt_unless_requested_lemma p H E). unfold ckpt_req, ckpt_saves.
+  rewrite Hz, Hl. apply andb_false_r.
+Qed.
+
 Theorem ckpt_written_when_requested_lemma : forall p, ckpt_contract p = true ->
-  forall E, fl E SaveCkpt = true -> no_faults E -> result E p = Ok ->
+  forall E, ckpt_req (fl E) = true -> no_faults E -> result E p = Ok ->
   exists a, In a (trace E p) /\ is_write_to FCkpt a = true.
 Proof.
   intros p H E Hsc Hnf Hres. unfold ckpt_contract in H. apply andb_prop in H as [_ H].
   destruct (forall_envs_sound _ H E) as (F & Hag & HF).
-  rewrite <- Hag, Hsc in HF. simpl in HF.
+  rewrite (ckpt_req_agrees E F Hag), Hsc in HF. simpl in HF.
   pose proof (ends_clean_sound _ F E p Hag Hnf HF Hres) as Hfin.
   destruct (mfinal_false _ _ _ Hfin) as [[Hs _] | (p1 & k & p2 & Hpre & Hk & _ & _)]; [discriminate|].
   exists k. split; auto. rewrite Hpre. apply in_or_app. right. left. reflexivity.
@@ -523,14 +552,17 @@ Proof. intros E F H. unfold valid_cell, one_framework. rewrite !H. reflexivity. 
 Lemma rm_requested_agrees : forall E F, agrees E F -> rm_requested F = rm_requested (fl E).
 Proof. intros E F H. unfold rm_requested, np_in_use. rewrite !H. reflexivity. Qed.
 
+Lemma chunks_in_use_agrees : forall E F t, agrees E F -> chunks_in_use F t = chunks_in_use (fl E) t.
+Proof. intros E F t H. unfold chunks_in_use, np_in_use. rewrite !H. reflexivity. Qed.
+
 Lemma rm_req_agrees : forall E F t, agrees E F -> rm_req F t = rm_req (fl E) t.
-Proof. intros E F t H. unfold rm_req, np_in_use. rewrite !H. reflexivity. Qed.
+Proof. intros E F t H. unfold rm_req. rewrite H, (chunks_in_use_agrees E F t H). reflexivity. Qed.
 
 Lemma rm_req_train : forall F, rm_req F RmTrain = rm_requested F.
-Proof. intro F. unfold rm_req, rm_requested. apply andb_comm. Qed.
+Proof. intro F. unfold rm_req, rm_requested, chunks_in_use. apply andb_comm. Qed.
 
 Lemma rm_req_val : forall F, rm_req F RmVal = rm_requested F.
-Proof. intro F. unfold rm_req, rm_requested. apply andb_comm. Qed.
+Proof. intro F. unfold rm_req, rm_requested, chunks_in_use. apply andb_comm. Qed.
 
 Lemma in_all_rmt : forall t, In t all_rmt.
 Proof. destruct t; simpl; auto. Qed.
@@ -579,7 +611,39 @@ Proof.
   rewrite Forall_forall in *. intros a Ha. split; auto.
 Qed.
 
-(* on every path that is not an explicit rejection — faults inside try bodies included *)
+(* on every path that is not an explicit rejection — faults inside try bodies included — the chunk monitor
+   ends in state false even when entered in state true (chunks may pre-exist) *)
+Lemma rm_all_paths_final : forall excuse t p,
+  (forall E F, agrees E F -> excuse F = excuse (fl E)) ->
+  rm_all_paths excuse t p = true ->
+  forall E, valid_cell (fl E) = true -> rm_req (fl E) t = true -> excuse (fl E) = false ->
+  result E p <> ExnInvalid ->
+  chunks_present true t (trace E p) = false.
+Proof.
+  intros excuse t p Hex H E Hv Hrq Hnx Hres. unfold rm_all_paths in H.
+  destruct (forall_envs_sound _ H E) as (F & Hag & HF).
+  rewrite (valid_cell_agrees E F Hag), (rm_req_agrees E F t Hag), (Hex E F Hag), Hv, Hrq, Hnx in HF.
+  simpl in HF. apply andb_prop in HF as [HF Hxo]. apply andb_prop in HF as [Hok Hnrm].
+  destruct (run_sound _ F true E p Hag (fun X => False_ind _ (diff_true_false X)) Hok) as [_ Ha].
+  unfold chunks_present.
+  destruct (result E p); simpl in Ha; try (eapply ale_le_false; eauto; fail); try congruence.
+Qed.
+
+(* round 4 (review finding 2): the removal comes AFTER the last creation / use of chunks of that kind *)
+Theorem rm_after_last_mk_lemma : forall excuse t p,
+  (forall E F, agrees E F -> excuse F = excuse (fl E)) ->
+  rm_all_paths excuse t p = true ->
+  forall E, valid_cell (fl E) = true -> rm_req (fl E) t = true -> excuse (fl E) = false ->
+  result E p <> ExnInvalid ->
+  exists p1 a p2, trace E p = p1 ++ a :: p2 /\ is_rm t a = true /\
+                  Forall (fun b => is_mk t b = false) p2.
+Proof.
+  intros excuse t p Hex H E Hv Hrq Hnx Hres.
+  pose proof (rm_all_paths_final excuse t p Hex H E Hv Hrq Hnx Hres) as Hfin. unfold chunks_present in Hfin.
+  destruct (mfinal_false _ _ _ Hfin) as [[Hs _] | (p1 & k & p2 & Hpre & Hk & _ & Hp2)]; [discriminate|].
+  exists p1, k, p2. auto.
+Qed.
+
 Theorem rm_on_all_paths_lemma : forall excuse t p,
   (forall E F, agrees E F -> excuse F = excuse (fl E)) ->
   rm_all_paths excuse t p = true ->
@@ -587,15 +651,53 @@ Theorem rm_on_all_paths_lemma : forall excuse t p,
   result E p <> ExnInvalid ->
   exists a, In a (trace E p) /\ is_rm t a = true.
 Proof.
-  intros excuse t p Hex H E Hv Hrq Hnx Hres. unfold rm_all_paths in H.
-  destruct (forall_envs_sound _ H E) as (F & Hag & HF).
-  rewrite (valid_cell_agrees E F Hag), (rm_req_agrees E F t Hag), (Hex E F Hag), Hv, Hrq, Hnx in HF.
-  simpl in HF. apply andb_prop in HF as [HF Hxo]. apply andb_prop in HF as [Hok Hnrm].
-  destruct (run_sound _ F true E p Hag (fun X => False_ind _ (diff_true_false X)) Hok) as [_ Ha].
-  assert (Hfin : mfinal (rm_done_mon t) true (trace E p) = false).
-  { destruct (result E p); simpl in Ha; try (eapply ale_le_false; eauto; fail); try congruence. }
-  destruct (mfinal_false _ _ _ Hfin) as [[Hs _] | (p1 & k & p2 & Hpre & Hk & _ & _)]; [discriminate|].
+  intros excuse t p Hex H E Hv Hrq Hnx Hres.
+  destruct (rm_after_last_mk_lemma excuse t p Hex H E Hv Hrq Hnx Hres) as (p1 & k & p2 & Hpre & Hk & _).
   exists k. split; auto. rewrite Hpre. apply in_or_app. right. left. reflexivity.
+Qed.
+
+(* chunk files of kind t are created only by a run that uses that kind *)
+Theorem no_mk_unless_in_use_lemma : forall p, mk_guard_contract p = true ->
+  forall E t, chunks_in_use (fl E) t = false -> Forall (fun a => is_mk t a = false) (trace E p).
+Proof.
+  intros p H E t Hu. unfold mk_guard_contract in H. rewrite forallb_forall in H.
+  specialize (H t (in_all_rmt t)). unfold mk_guard_t in H.
+  destruct (forall_envs_sound _ H E) as (F & Hag & HF).
+  rewrite (chunks_in_use_agrees E F t Hag), Hu in HF. simpl in HF.
+  destruct (run_sound _ F true E p Hag (fun X => False_ind _ (diff_true_false X)) HF) as [Hm _].
+  exact (mok_const_true (no_mk_mon_t t) (fun _ => eq_refl) (fun _ => eq_refl) _ Hm).
+Qed.
+
+Lemma mfinal_mono : forall m tr s k, ble s k -> ble (mfinal m s tr) (mfinal m k tr).
+Proof.
+  induction tr as [|a r IH]; intros s k H; simpl; auto. apply IH. apply mstep_mono. exact H.
+Qed.
+
+Lemma mfinal_no_gen : forall m tr, Forall (fun a => gen m a = false) tr -> mfinal m false tr = false.
+Proof.
+  induction tr as [|a r IH]; intros H; simpl; auto. inversion H; subst.
+  unfold mstep. rewrite H2. destruct (kill m a); apply IH; auto.
+Qed.
+
+(* THE CHUNK CLAUSE: when deletion is requested, a valid run that is not an explicit rejection ends with no
+   chunk files of ANY kind — whatever was there before (s0), provided the directories of a kind this run does
+   not use were empty to begin with *)
+Theorem no_chunks_at_exit_lemma : forall p, chunk_contract p = true ->
+  forall E, valid_cell (fl E) = true -> fl E DeleteChunks = true -> result E p <> ExnInvalid ->
+  forall t s0, (chunks_in_use (fl E) t = false -> s0 = false) ->
+  chunks_present s0 t (trace E p) = false.
+Proof.
+  intros p H E Hv Hd Hres t s0 Hs0. unfold chunk_contract in H.
+  apply andb_prop in H as [H Hrm]. apply andb_prop in H as [_ Hmk].
+  destruct (chunks_in_use (fl E) t) eqn:Hu.
+  - rewrite forallb_forall in Hrm. specialize (Hrm t (in_all_rmt t)).
+    assert (Hrq : rm_req (fl E) t = true) by (unfold rm_req; rewrite Hd, Hu; reflexivity).
+    pose proof (rm_all_paths_final no_excuse t p (fun _ _ _ => eq_refl) Hrm E Hv Hrq eq_refl Hres) as Hfin.
+    unfold chunks_present in *.
+    pose proof (mfinal_mono (chunks_mon t) (trace E p) s0 true (fun _ => eq_refl)) as Hle.
+    destruct (mfinal (chunks_mon t) s0 (trace E p)); auto. specialize (Hle eq_refl). congruence.
+  - rewrite (Hs0 eq_refl). unfold chunks_present. apply mfinal_no_gen.
+    exact (no_mk_unless_in_use_lemma p Hmk E t Hu).
 Qed.
 
 (* ---- (6) completion -------------------------------------------------------- *)
@@ -670,7 +772,9 @@ Proof.
     rewrite H1 in Hne. discriminate.
 Qed.
 
-(* ---- the frozen snapshot `reference` (finite facts, recomputed by the kernel) ---- *)
+(* ---- the frozen snapshot `reference` (finite facts, recomputed by the kernel) ----
+   `reference true true` = the current tree; `reference false _` / `reference _ false` = the pinned tree before
+   fix 9c1a762 (F14) / 0a40184 (F15): historic variants, implemented by no code today *)
 
 Lemma reference_checkers_unfixed :
   (key_never_written (reference false false), key_written_only_under_F14 (reference false false),
@@ -721,18 +825,19 @@ Lemma reference_contracts : forall b14 b15,
   ckpt_contract (reference b14 b15) = true.
 Proof. destruct b14, b15; vm_compute; auto. Qed.
 
-(* the complete leak table of the pinned tree, cell by cell (32 cells) *)
+(* the complete leak table of the pinned tree (before fix 9c1a762), cell by cell (1536 cells) *)
 Definition expected_leaks (c : cell) : list (file * bool) :=
   [(FInitial, true); (FTraining, true)] ++
   (match c_fw c with KMem => [] | _ => if c_existing c then [] else [(FChunkCfg, true)] end) ++
   (if c_wandb c then []
-   else [(FTraining, false)] ++ (if c_ckpt c then [(FCkpt, false)] else []) ++ [(FTraining, false)]).
+   else [(FTraining, false)] ++
+        (if c_ckpt c && (negb (c_topk0 c) || c_savelast c) then [(FCkpt, false)] else []) ++ [(FTraining, false)]).
 
 Lemma reference_leak_table :
   map (leaks_of_cell (reference false true)) all_cells = map expected_leaks all_cells.
 Proof. vm_compute. reflexivity. Qed.
 
-Lemma all_cells_length : length all_cells = 384.
+Lemma all_cells_length : length all_cells = 1536.
 Proof. vm_compute. reflexivity. Qed.
 
 (* ---- the statements of Props.v, in exactly the form stated there ------------- *)
@@ -745,6 +850,21 @@ Proof.
   intros t p H E Hv Hr. apply (rm_on_all_paths_lemma no_excuse t p no_excuse_agrees H E Hv Hr).
   reflexivity.
 Qed.
+
+Lemma chunk_deletion_after_last_creation_lemma : forall t p, rm_all_paths no_excuse t p = true ->
+  forall E, valid_cell (fl E) = true -> rm_req (fl E) t = true ->
+  result E p <> ExnInvalid ->
+  exists p1 a p2, trace E p = p1 ++ a :: p2 /\ is_rm t a = true /\ Forall (fun b => is_mk t b = false) p2.
+Proof.
+  intros t p H E Hv Hr. apply (rm_after_last_mk_lemma no_excuse t p no_excuse_agrees H E Hv Hr).
+  reflexivity.
+Qed.
+
+Lemma chunk_deletion_after_last_creation_unless_F15_lemma : forall t p, rm_all_paths sel_F15 t p = true ->
+  forall E, valid_cell (fl E) = true -> rm_req (fl E) t = true -> sel_F15 (fl E) = false ->
+  result E p <> ExnInvalid ->
+  exists p1 a p2, trace E p = p1 ++ a :: p2 /\ is_rm t a = true /\ Forall (fun b => is_mk t b = false) p2.
+Proof. intros t p. apply (rm_after_last_mk_lemma sel_F15 t p sel_F15_agrees). Qed.
 
 Lemma chunk_deletion_on_all_paths_unless_F15_lemma : forall t p, rm_all_paths sel_F15 t p = true ->
   forall E, valid_cell (fl E) = true -> rm_req (fl E) t = true -> sel_F15 (fl E) = false ->
@@ -804,7 +924,7 @@ Lemma ref_chunks_left_behind : forall b14,
 Proof. intro b. apply rm_missing_cell_exists. apply reference_rm_missing_cell. Qed.
 
 Lemma ref_leak_table :
-  length all_cells = 384 /\
+  length all_cells = 1536 /\
   map (leaks_of_cell (reference false true)) all_cells = map expected_leaks all_cells.
 Proof. split. apply all_cells_length. apply reference_leak_table. Qed.
 
@@ -835,8 +955,7 @@ Theorem final_config_records_run_id_lemma : forall p,
   final_config_contract p = true -> run_id_contract p = true ->
   forall E, fl E RankZero = true -> fl E UseWandb = true -> no_faults E -> result E p = Ok ->
   exists p1 a p2 b p3, trace E p = p1 ++ a :: p2 ++ b :: p3 /\
-    is_set_path run_id_path a = true /\ is_write_to FTraining b = true /\
-    Forall (fun c => is_set c = false) p3.
+    is_set_path run_id_path a = true /\ is_write_to FTraining b = true /\ unchanged_after p3.
 Proof.
   intros p Hf Hr E Hrz Hw Hnf Hres.
   destruct (final_after_mutation_lemma p Hf E Hrz Hnf Hres) as (q1 & b & q3 & Htr & Hb & Hq3).
@@ -848,15 +967,15 @@ Proof.
   - exfalso. pose proof (is_set_path_is_set _ _ Ha) as Hs.
     destruct Hin as [<- | Hin].
     + rewrite (write_not_set _ _ Hb) in Hs. discriminate.
-    + rewrite Forall_forall in Hq3. rewrite (Hq3 a Hin) in Hs. discriminate.
+    + unfold unchanged_after in Hq3. rewrite Forall_forall in Hq3. destruct (Hq3 a Hin) as [Hx _].
+      rewrite Hx in Hs. discriminate.
 Qed.
 
 (* (3'') the final save survives exceptions: whatever strikes inside a try body, a rank-0 run
    that is not rejected ends with training_config.yaml written after the last mutation *)
 Theorem final_config_under_faults_lemma : forall p, final_config_contract_faults p = true ->
   forall E, fl E RankZero = true -> result E p <> ExnInvalid ->
-  exists p1 a p2, trace E p = p1 ++ a :: p2 /\ is_write_to FTraining a = true /\
-                  Forall (fun b => is_set b = false) p2.
+  exists p1 a p2, trace E p = p1 ++ a :: p2 /\ is_write_to FTraining a = true /\ unchanged_after p2.
 Proof.
   intros p H E Hrz Hres. unfold final_config_contract_faults in H.
   destruct (forall_envs_sound _ H E) as (F & Hag & HF).
@@ -866,7 +985,7 @@ Proof.
   assert (Hfin : mfinal final_mon true (trace E p) = false).
   { destruct (result E p); simpl in Ha; try (eapply ale_le_false; eauto; fail); try congruence. }
   destruct (mfinal_false _ _ _ Hfin) as [[Hs _] | (p1 & k & p2 & Hpre & Hk & _ & Hp2)]; [discriminate|].
-  exists p1, k, p2. auto.
+  exists p1, k, p2. repeat split; auto. apply changes_config_false; exact Hp2.
 Qed.
 
 (* round-2 facts about the frozen snapshot *)
@@ -875,3 +994,77 @@ Lemma reference_round2_contracts : forall b14,
   final_config_contract_faults (reference b14 true) = true.
 Proof. destruct b14; vm_compute; auto. Qed.
 
+
+(* ---- round 4 ------------------------------------------------------------------ *)
+
+(* (6') review finding 3: for a given term, every valid cell ends Ok under the harness's data valuation *)
+Theorem valid_cells_complete_lemma : forall p, valid_cells_complete p = true ->
+  forall c, In c all_cells -> valid_cell (cell_flags c) = true ->
+  result (cenv p c None) p = Ok /\ valid_cell (fl (cenv p c None)) = true /\ no_faults (cenv p c None).
+Proof.
+  intros p H c Hin Hv. unfold valid_cells_complete in H. rewrite forallb_forall in H.
+  specialize (H c Hin). rewrite Hv in H. simpl in H.
+  split; [|split; [exact Hv | apply cenv_no_faults]].
+  destruct (result (cenv p c None) p); simpl in H; congruence.
+Qed.
+
+Lemma in_bools : forall b, In b bools.
+Proof. destruct b; simpl; auto. Qed.
+
+Lemma all_cells_complete : forall c, In c all_cells.
+Proof.
+  intros [w k fw d s o x m z l]. unfold all_cells.
+  apply in_flat_map; exists w; split; [apply in_bools|].
+  apply in_flat_map; exists k; split; [apply in_bools|].
+  apply in_flat_map; exists fw; split; [destruct fw; simpl; auto|].
+  apply in_flat_map; exists d; split; [apply in_bools|].
+  apply in_flat_map; exists s; split; [apply in_bools|].
+  apply in_flat_map; exists o; split; [apply in_bools|].
+  apply in_flat_map; exists x; split; [apply in_bools|].
+  apply in_flat_map; exists m; split; [apply in_bools|].
+  apply in_flat_map; exists z; split; [apply in_bools|].
+  apply in_map. apply in_bools.
+Qed.
+
+(* an unconditional rejection passes `completes` (and makes every `result = Ok` premise unsatisfiable) but
+   not `valid_cells_complete`: the two checkers are independent *)
+Lemma reject_all_checkers : (completes (Do ARaise), valid_cells_complete (Do ARaise)) = (true, false).
+Proof. vm_compute. reflexivity. Qed.
+
+(* round-4 facts about the frozen snapshot of the current tree *)
+Lemma reference_round4_contracts :
+  (valid_cells_complete (reference true true), ckpt_contract (reference true true),
+   ckpt_contract_save_ckpt_alone (reference true true), chunk_contract (reference true true),
+   mk_guard_contract (reference true true)) = (true, true, false, true, true).
+Proof. vm_compute. reflexivity. Qed.
+
+(* a reload after the last save, and a removal moved in front of the creation, are rejected (the review's
+   scratch terms): the strengthened monitors are not vacuous *)
+Definition ex_reload_after : eff :=
+  block [Do AReload; Do AMask; Do (AWrite FInitial true); Do (AWrite FTraining false); Do AReload; Do AMask].
+Definition ex_rm_first : eff :=
+  block [Do AReload; Do AMask; Do (ARm RmTrain); Do (AMkChunks RmTrain)].
+Definition ex_rm_last : eff :=
+  block [Do AReload; Do AMask; Do (AMkChunks RmTrain); Do (ARm RmTrain)].
+
+Lemma strengthened_monitors_reject :
+  (final_config_contract ex_reload_after, final_config_contract_faults ex_reload_after,
+   rm_all_paths no_excuse RmTrain ex_rm_first, rm_all_paths no_excuse RmTrain ex_rm_last)
+  = (false, false, false, true).
+Proof. vm_compute. reflexivity. Qed.
+
+(* the withdrawn reading of the checkpoint clause is false of the current tree: a completed run with
+   save_ckpt on, save_top_k = 0, save_last unset writes no checkpoint *)
+Definition zero_ckpt_cell : cell :=
+  {| c_wandb := false; c_ckpt := true; c_fw := KMem; c_delete := false; c_structured := false;
+     c_offline := true; c_existing := false; c_memfb := false; c_topk0 := true; c_savelast := false |}.
+
+Lemma ref_save_ckpt_alone_refuted :
+  exists E, valid_cell (fl E) = true /\ fl E SaveCkpt = true /\ no_faults E /\
+            result E (reference true true) = Ok /\
+            Forall (fun a => is_write_to FCkpt a = false) (trace E (reference true true)).
+Proof.
+  exists (cenv (reference true true) zero_ckpt_cell None).
+  split; [reflexivity|]. split; [reflexivity|]. split; [apply cenv_no_faults|].
+  split; [vm_compute; reflexivity|]. vm_compute. repeat constructor.
+Qed.
